@@ -44,7 +44,7 @@ func init() {
 		ID:          "C05",
 		Run:         RunC05,
 		Replay:      func(c *Ctx, entry, input string) { CheckC05(c, entry, input) },
-		Rule:        "cases = (entry, input) as in C04's tree workload; every node's Pos()/End() is checked against range, token boundaries of memefish.Lexer on the same input (midpoints of >> and <> added), containment in the parent and sibling order (CreateTable exempt); error trees: range, nesting, order only; distinct_nontrivial = distinct accepted (entry,input)",
+		Rule:        "cases = (entry, input) as in C04's tree workload plus the operand matrix and two tagged sub-workloads (@qpkw: back-quoted pseudo-keywords; every word of every corpus file / systematic sentence back-quoted in place); every node's Pos()/End() is checked against range, token boundaries of memefish.Lexer on the same input (midpoints of >> and <> added), containment in the parent and sibling order (CreateTable exempt); error trees: range, nesting, order only; distinct_nontrivial = distinct accepted (entry,input)",
 		Assumptions: []string{"token boundaries come from memefish.Lexer, itself checked against the reference lexer by C13/C14"},
 		Floors: func(m *Merged) []string {
 			if m.Counters["trees_clean"] == 0 || m.Counters["trees_with_error"] == 0 {
@@ -134,7 +134,7 @@ func init() {
 		ID:          "C01",
 		Run:         RunC01,
 		Replay:      func(c *Ctx, entry, input string) { CheckC01(c, entry, input) },
-		Rule:        "cases = (entry, input) accepted without error, from the corpus under its entries and list entries, type seeds, generated sentences of grammar G under all renderers, and the accepted fraction of token mutants; each is unparsed, re-parsed with the same entry, compared modulo positions (validity must agree) and unparsed again (fixed point); distinct_nontrivial = distinct accepted (entry,input)",
+		Rule:        "cases = (entry, input) accepted without error, from the corpus under its entries and list entries, type seeds, generated sentences of grammar G under all renderers, the accepted fraction of token mutants / near misses (edits, truncations, moves, duplicated runs, inserted phrases, widened lists) and the operand matrix (every primary-expression form x operator context x field-name kind after a dot); each is unparsed, re-parsed with the same entry, compared modulo positions (validity must agree) and unparsed again (fixed point); distinct_nontrivial = distinct accepted (entry,input)",
 		Assumptions: []string{"equality modulo positions is reflective over all exported fields; nil and empty slices are considered equal"},
 		Floors: func(m *Merged) []string {
 			if m.Counters["accepted"] < 1000 {
@@ -177,7 +177,7 @@ func init() {
 		Run:         RunC18,
 		Replay:      ReplayC18,
 		Race:        true,
-		Rule:        "worker built with -race; determinism set = corpus under every entry + 2-statement lists + SplitRawStatements + type seeds + token mutants (same in every shard); per shard: sequential reference digests (tree incl. positions, SQL, Pos/End of every node, walk count, error list), repetition in shuffled order interleaved with unrelated calls, aliasing check of address sets of separately returned trees + mutation of a returned tree followed by a repeat, rounds of 64 goroutines released on a barrier (each with its own order, hot inputs shared) whose digests are compared with the sequential ones, package-table digest before/after; shards are fresh processes and must agree on the digest of the whole set; race reports are counted in GORACE log files; distinct_nontrivial = distinct (entry,input) of the determinism set",
+		Rule:        "worker built with -race; determinism set = corpus under every entry + 2-statement lists + SplitRawStatements + type seeds + token mutants (same in every shard); per shard: sequential reference digests (tree incl. positions, SQL, Pos/End of every node, walk count, error list), repetition in shuffled order interleaved with unrelated calls, aliasing check of address sets of separately returned trees + mutation of a returned tree followed by a repeat, rounds of 64 goroutines released on a barrier (each with its own order, hot inputs shared) whose digests are compared with the sequential ones, package-table digest before/after; held results: for every error-site representative of errsites.tsv (one short input per (entry, error message shape), written by cmd/harvest) and a sample of the set, the result is kept, the same text is parsed again at shifted positions, and the kept result must read the same; all error sites from 16 goroutines at once; shards are fresh processes and must agree on the digest of the whole set; race reports are counted in GORACE log files; distinct_nontrivial = distinct (entry,input) of the determinism set",
 		Assumptions: []string{"the race detector only sees accesses that execute; schedules are not enumerated", "sharing one Parser/Lexer/File value between goroutines is out of scope"},
 		Floors: func(m *Merged) []string {
 			var f []string
@@ -197,7 +197,7 @@ func init() {
 		ID:          "C02",
 		Run:         RunC02,
 		Replay:      func(c *Ctx, entry, input string) { CheckC02(c, entry, input) },
-		Rule:        "cases = sentences of grammar G (systematic each-choice set under 3 render policies + random derivations under random trivia / case / quoting), plus corpus files and accepted token mutants; expected = significant tokens of the input by the independent reference lexer in normal form (identifiers by name, literals by decoded value, numbers by spelling, keywords / punctuation by kind), observed = the same normal form of SQL(); only the documented canonicalisations are applied (noise words INNER/OUTER/INTO/ARE/DELETE's FROM, <> vs !=, >> split, optional commas, CREATE TABLE element grouping); distinct_nontrivial = distinct token-kind skeletons of accepted inputs with >= 5 tokens",
+		Rule:        "cases = sentences of grammar G (systematic each-choice set under 3 render policies + random derivations under random trivia / case / quoting), plus corpus files, accepted token mutants and near misses, the operand matrix and qualified special forms; expected = significant tokens of the input by the independent reference lexer in normal form (identifiers by name, literals by decoded value, numbers by spelling, keywords / punctuation by kind), observed = the same normal form of SQL(); only the documented canonicalisations are applied (noise words INNER/OUTER/INTO/ARE/DELETE's FROM, <> vs !=, >> split, optional commas, CREATE TABLE element grouping); distinct_nontrivial = distinct token-kind skeletons of accepted inputs with >= 5 tokens",
 		Assumptions: []string{"the reference lexer (not the parser, not memefish.Lexer) tokenizes both the input and SQL()", "pseudo-keywords compare case-insensitively, user identifiers exactly"},
 		Floors: func(m *Merged) []string {
 			if m.Counters["accepted"] < 1000 || m.Counters["g_systematic"] == 0 {
@@ -210,7 +210,7 @@ func init() {
 		ID:          "C08",
 		Run:         RunC08,
 		Replay:      func(c *Ctx, entry, input string) { CheckC08(c, entry, input) },
-		Rule:        "cases = sentences of grammar G written from the documentation (internal/gen/grammar.go, ddl.go; scope in internal/gen/SCOPE.md): the systematic each-choice set (every alternative of every production, every optional clause on/off, every list at lengths min/min+1/3) under upper-case/canonical, lower-case/tight and random-case/hostile-trivia renderings, plus random derivations; each must be accepted by its entry point and by ParseStatement with reflect.DeepEqual trees (positions included); random ';'-joined lists of 0-5 accepted sentences with and without trailing ';' through ParseStatements/ParseDDLs/ParseDMLs; distinct_nontrivial = distinct token-kind skeletons",
+		Rule:        "cases = sentences of grammar G written from the documentation (internal/gen/grammar.go, ddl.go; scope in internal/gen/SCOPE.md): the systematic each-choice set (every alternative of every production, every optional clause on/off, every list at lengths min/min+1/3) under upper-case/canonical, lower-case/tight and random-case/hostile-trivia renderings, plus random derivations; each must be accepted by its entry point and by ParseStatement with reflect.DeepEqual trees (positions included); random ';'-joined lists of 0-5 accepted sentences with and without trailing ';' through ParseStatements/ParseDDLs/ParseDMLs; size relation: a sentence (systematic set, corpus, hand-written hosts with parenthesised query operands) accepted with one of its lists widened by 13 elements must be accepted with it widened by 900; distinct_nontrivial = distinct token-kind skeletons",
 		Assumptions: []string{"G is the reference grammar; constructs memefish does not implement are excluded and recorded in SCOPE.md", "documented forms that memefish rejects are fixed scope probes, listed in KNOWN_FINDINGS.txt by exact input"},
 		Floors: func(m *Merged) []string {
 			var f []string
@@ -227,7 +227,7 @@ func init() {
 		ID:          "C16",
 		Run:         RunC16,
 		Replay:      ReplayC16,
-		Rule:        "cases = (accepted text, re-spelling): sentences of G re-rendered k times with hostile trivia (blanks, tabs, newlines, CR LF, /* */, --, #, // comments containing ; ' \" `) and lower / mixed / random case of reserved keywords AND pseudo-keywords (roles known to the generator), identifiers and literals spelled identically; corpus files re-spelled in trivia and reserved-keyword case only; every re-spelling passes the re-lex guard (same token sequence by the reference lexer); distinct_nontrivial = distinct sentence skeletons / corpus files",
+		Rule:        "cases = (accepted text, re-spelling): sentences of G re-rendered k times with hostile trivia (blanks, tabs, newlines, CR LF, /* */, --, #, // comments containing ; ' \" `) and lower / mixed / random case of reserved keywords AND pseudo-keywords (roles known to the generator), identifiers and literals spelled identically; corpus files re-spelled in trivia and reserved-keyword case only; whatever else the parser accepts (near misses, scope probes, qualified special forms, wide hosts) re-spelled in trivia and reserved-keyword case; every re-spelling passes the re-lex guard (same token sequence by the reference lexer); distinct_nontrivial = distinct sentence skeletons / corpus files",
 		Assumptions: []string{"whitespace is ASCII white space (the reference lexer does not judge other Unicode spaces)", "trivia next to a '.' is left unchanged in corpus re-spellings (documentation silent)"},
 		Floors: func(m *Merged) []string {
 			if m.Counters["respellings_compared"] < 1000 {
@@ -259,7 +259,7 @@ func init() {
 		ID:          "C06",
 		Run:         RunC06,
 		Replay:      func(c *Ctx, entry, input string) { CheckC06(c, entry, input) },
-		Rule:        "cases = accepted inputs whose own round trip (C01) holds: corpus, type seeds, sentences of G (systematic set under 3 renderings + random), accepted token mutants; for every node with a sane range: (a) if it sits in a slot whose static type is Expr / Type / QueryExpr / Statement / DDL / DML, input[Pos:End] is parsed on its own with the matching entry point and must give a tree equal to the node modulo positions; (b) input[:Pos]+' '+SQL()+' '+input[End:] must parse under the original entry point to a tree equal to the original; a node is reported only if all its descendants pass (root cause); distinct_nontrivial = distinct (entry,input)",
+		Rule:        "cases = accepted inputs whose own round trip (C01) holds: corpus, type seeds, sentences of G (systematic set under 3 renderings + random), accepted token mutants and near misses (<= 1200 bytes), the operand matrix; for every node with a sane range: (a) if it sits in a slot whose static type is Expr / Type / QueryExpr / Statement / DDL / DML, input[Pos:End] is parsed on its own with the matching entry point and must give a tree equal to the node modulo positions; (b) input[:Pos]+' '+SQL()+' '+input[End:] must parse under the original entry point to a tree equal to the original; a node is reported only if all its descendants pass (root cause); distinct_nontrivial = distinct (entry,input)",
 		Assumptions: []string{"the slot rule (static field type) implements the property's exclusions: single-identifier Path, field-name Ident, NamedType in SchemaType slots are never in an Expr/Type slot"},
 		Floors: func(m *Merged) []string {
 			if m.Counters["substring_parses"] == 0 || m.Counters["splices"] == 0 || m.SetLen("substring_parsed_types") < 40 {
